@@ -67,6 +67,33 @@ pub fn check_truth(xs: &[f64]) -> Result<(), String> {
                 (2, Ok(a), Ok(b)) if a.to_bits() == used[0].to_bits() && b.to_bits() == used[1].to_bits() => {}
                 _ => return Err(format!("accessors of Truth built from {used:?}: f() = {f:?}, c() = {c:?}")),
             }
+            // every other public getter (the EvidentValue trait: get_frequency, get_confidence,
+            // frequency, confidence, get_frequency_confidence) agrees with f() / c(), value and panic
+            {
+                use narsese::api::EvidentValue;
+                let b = |r: &Result<f64, String>| r.as_ref().ok().map(|x| x.to_bits());
+                let gf = quiet_catch(AssertUnwindSafe(|| EvidentValue::get_frequency(t)));
+                let gc = quiet_catch(AssertUnwindSafe(|| EvidentValue::get_confidence(t)));
+                let ff = quiet_catch(AssertUnwindSafe(|| EvidentValue::frequency(t)));
+                let cc = quiet_catch(AssertUnwindSafe(|| EvidentValue::confidence(t)));
+                let fc = quiet_catch(AssertUnwindSafe(|| EvidentValue::get_frequency_confidence(t)));
+                if b(&gf) != b(&f) || b(&ff) != b(&f) || b(&gc) != b(&c) || b(&cc) != b(&c) {
+                    return Err(format!("trait getters of Truth built from {used:?} disagree with f()/c(): get_frequency = {gf:?}, frequency = {ff:?}, get_confidence = {gc:?}, confidence = {cc:?}"));
+                }
+                match (&fc, &f, &c) {
+                    (Ok((x, y)), Ok(a), Ok(bb)) if x.to_bits() == a.to_bits() && y.to_bits() == bb.to_bits() => {}
+                    (Err(_), _, _) if f.is_err() || c.is_err() => {}
+                    _ => return Err(format!("get_frequency_confidence() of Truth built from {used:?} = {fc:?}, but f() = {f:?} and c() = {c:?}")),
+                }
+                // the (V, V) tuple instance of the same trait
+                if used.len() == 2 {
+                    let tup = (used[0], used[1]);
+                    let (x, y) = EvidentValue::get_frequency_confidence(&tup);
+                    if x.to_bits() != used[0].to_bits() || y.to_bits() != used[1].to_bits() || EvidentValue::frequency(&tup).to_bits() != used[0].to_bits() || EvidentValue::confidence(&tup).to_bits() != used[1].to_bits() {
+                        return Err(format!("EvidentValue getters of the tuple {tup:?} do not return its components"));
+                    }
+                }
+            }
         }
         (Err(_), false) => {}
         (Ok(t), false) => return Err(format!("Truth::try_from_floats({xs:?}) accepts an out-of-range component: {t:?}")),
